@@ -748,6 +748,21 @@ def rule_fixed_route_segments(chk, prog):
         raise AnalysisBroken("buildOrthogonalNudgingSegments: no shiftable segment construction found")
 
 
+def rule_junction_limits(chk, prog):
+    r = chk.rule("JUNCTION-LIMITS-AT-MEETING-POINT", "buildOrthogonalNudgingSegments: the point that stands for a junction in the end-segment limits (end "
+                 "segments at a junction are not nudged) is the junction's recommendedPosition() -- the point its connectors' routes run to after "
+                 "hyperedge improvement (C12 JUNCTION-POSITION-WRITTEN) -- not position(), which still names the old place until the client moves "
+                 "the junction: with nudgeOrthogonalSegmentsConnectedToShapes the final segments would be nudged off the junction", floor=1)
+    fn = prog.fn("Avoid::buildOrthogonalNudgingSegments")
+    rec = [c for c in calls(fn) if c.get("cname") == "Avoid::JunctionRef::recommendedPosition"]
+    pos = [c for c in calls(fn) if c.get("cname") in ("Avoid::JunctionRef::position", "Avoid::Obstacle::position") and
+           call_object(c) is not None and "junction" in norm(call_object(c)).lower()]
+    r.count()
+    ok = bool(rec) and not pos
+    (r.ok if ok else r.bad)("junction limits", fn.loc((pos or rec or [fn.body])[0]) if (pos or rec) else fn.where(), "" if ok else
+                            "the limits of segments ending at a junction are taken from position() instead of the point the routes meet at")
+
+
 def rule_segments_represented(chk, prog):
     """Nudging can only keep apart what it knows about: every segment of every orthogonal connector is represented, movable or not."""
     r = chk.rule("SEGMENTS-ALL-REPRESENTED", "buildOrthogonalNudgingSegments: a connector is left out only because it is not orthogonally routed, and "
@@ -815,6 +830,7 @@ def run(chk):
     cg = CallGraph(prog)
     chk.guard(rule_pair_distinct, chk, prog)
     chk.guard(rule_segments_represented, chk, prog)
+    chk.guard(rule_junction_limits, chk, prog)
     chk.guard(rule_fixed_route_segments, chk, prog)
     chk.guard(rule_weight_writeback, chk, prog)
     chk.guard(rule_end_segments, chk, prog)
